@@ -4,6 +4,7 @@
 # tests pass, demo fails with it and passes without it) and runs the check of
 # the property against that worktree (VERIF_REPO).  Nothing is applied to /repo.
 ID=$1; SD=$2; TIER=${3:-quick}
+VD=$(cd "$(dirname "$0")/.." && pwd)   # the verif tree this script lives in (a scratch copy works too)
 export GOFLAGS=-mod=mod GOPROXY=off GOSUMDB=off GOTOOLCHAIN=local
 W=/tmp/sv-$ID
 git -C /repo worktree remove --force $W 2>/dev/null
@@ -20,7 +21,7 @@ mv /tmp/sv-$ID-demo.go $W/$PKG/seed_demo_test.go
 echo "== demo WITH the change (must fail)"; go test -vet=off -count=1 -run 'SeedDemo|Seed' ./$PKG 2>&1 | tail -4
 rm -f $W/$PKG/seed_demo_test.go
 echo "== check $ID $TIER against the changed tree"
-cd /verif && VERIF_REPO=$W ./check $ID $TIER > /verif/.work/seed-$ID.log 2>&1; echo "check exit=$?"
-grep -E "^VIOLATION|^KNOWN|INCONCLUSIVE|ENGINE" /verif/.work/seed-$ID.log | head -8 | cut -c1-220
-grep "violated obligation" /verif/.work/seed-$ID.log | head -4 | cut -c1-260
+mkdir -p $VD/.work; cd $VD && VERIF_REPO=$W ./check $ID $TIER > $VD/.work/seed-$ID.log 2>&1; echo "check exit=$?"
+grep -E "^VIOLATION|^KNOWN|INCONCLUSIVE|ENGINE" $VD/.work/seed-$ID.log | head -8 | cut -c1-220
+grep "violated obligation" $VD/.work/seed-$ID.log | head -4 | cut -c1-260
 git -C /repo worktree remove --force $W
